@@ -262,9 +262,26 @@ CANNED = {
 MISSING = object()
 
 
+class Alt(object):
+    """a canned argument with several shapes, used in turn (e.g. one state name or a list of state names)"""
+
+    def __init__(self, *values):
+        self.values = values
+        self.n = 0
+
+    def pick(self):
+        self.n += 1
+        return self.values[self.n % len(self.values)]
+
+
+CANNED[("count_cores_in_state", "state")] = Alt("run", ["run", "wait"], ("sync0",), "wait")
+CANNED[("wait_for_cores_to_reach_state", "state")] = Alt("run", ["run", "wait"])
+
+
 def canned(mname, pname):
     v = CANNED.get((mname, pname), MISSING)
-    return CANNED.get(pname, MISSING) if v is MISSING else v
+    v = CANNED.get(pname, MISSING) if v is MISSING else v
+    return v.pick() if isinstance(v, Alt) else v
 
 
 class Driver(object):
